@@ -1,12 +1,13 @@
 """C03 — totality, restricted to lexer kernels and diagnostic rendering arithmetic (E2 + E1)."""
 import os
+import re
 import z3
 
 import common
 import e2
 import lexkern
 import poskern
-from e2 import conj, disj
+from e2 import conj, disj, result_kind
 from lexkern import MAXN, SymState
 from mirsym import Exec, State, Opq, Agg, Ref, Seq, Val, Unsupported
 from poskern import MAXC, MAXL, valid_pos, sym_pos
@@ -204,6 +205,179 @@ def ob_parser_loops(run, mir, rp):
         ob.inconclusive(str(e))
 
 
+CLSS_RS = "src/check/context/clss/mod.rs"
+
+
+def _subterm_ids(t):
+    seen, stack = set(), [t]
+    while stack:
+        x = stack.pop()
+        if x.get_id() in seen:
+            continue
+        seen.add(x.get_id())
+        stack.extend(x.children())
+    return seen
+
+
+def ob_class_recursion(run, mir, rp):
+    """Context::class collects the ancestors of a class by recursion over its parents: termination needs a measure."""
+    ob = run.ob("class-lookup-recursion-guarded", "E2", "the class look-up that inherits from the parents (recursively, through a closure over `parents`) carries "
+                "the list of classes whose ancestors are being collected: it returns an error without recursing when the class it is asked for is in that "
+                "list, and every recursive call gets the list extended by the current class name - so the recursion depth is bounded by the number of "
+                "classes and a cyclic or self inheritance is a diagnostic, not a stack overflow", ["Context::class (+ the function and closure that recurse)"])
+    try:
+        cands = []
+        for n, f in mir.fns.items():
+            if not (f.impl_at and f.impl_at[0].endswith(CLSS_RS)) or "{closure" in n:
+                continue
+            kids = [g for m_, g in mir.fns.items() if m_.startswith(n + "::{closure#")]
+            txt = " ".join(str(b.term) for g in kids for b in g.blocks.values() if b.term)
+            if kids and re.search(r"LookupClass<.*>>::class|::class_\w+|Context::\w*class\w*", txt) and any("inherit" in str(b.term) for g in [f] + kids for b in g.blocks.values() if b.term):
+                cands.append((n, f, kids))
+        if len(cands) != 1:
+            raise Unsupported(f"functions that inherit from recursively looked-up parents: {[c[0] for c in cands]}")
+        name, fn, kids = cands[0]
+        ex = Exec(mir, max_paths=20000)
+        st = State()
+        args, below, cname = [], None, None
+        for an, aty in fn.args:
+            t = aty.strip()
+            if t.startswith("&[") or t.startswith("&Vec<") or t.startswith("&std::vec::Vec<") or t.startswith("&HashSet<"):
+                below = Opq(z3.Const("below", Val), t.lstrip("&"))
+                args.append(Ref(ex.new_cell(st, below)) if not t.startswith("&[") else below)
+            elif "StringName" in t:
+                snf = e2.rust_struct("src/check/name/string_name/mod.rs", "StringName")
+                cname = Opq(z3.Const("class.name", Val), "String")
+                sn = e2.mk_struct("src/check/name/string_name/mod.rs", "StringName", {f_: (cname if f_ == "name" else Opq(z3.Const("class." + f_, Val), "?")) for f_ in snf})
+                args.append(Ref(ex.new_cell(st, sn)))
+            elif t.startswith("&"):
+                args.append(Ref(ex.new_cell(st, Opq(z3.Const(f"a{an}", Val), t.lstrip("&")))))
+            else:
+                args.append(Opq(z3.Const(f"a{an}", Val), t))
+        if cname is None:
+            raise Unsupported(f"{name}: no StringName parameter")
+        claims, n_rec, n_guard = [], 0, 0
+        if below is None:
+            # no record of the classes below: nothing bounds the recursion
+            claims.append(z3.BoolVal(False))
+        else:
+            ends = e2.run_kernel(run, ex, fn, args, st)
+            bt, ct = ex.to_val(st, below), ex.to_val(st, cname)
+            for p in ends:
+                s = p.state
+                guards = [e_ for e_ in p.events if e_["name"].split("::")[-1] == "contains" and z3.eq(e_["argvals"][0], bt) and ct.get_id() in _subterm_ids(e_["argvals"][1])]
+                maps = [e_ for e_ in p.events if e_["name"] == "Iterator::map" and isinstance(e_["args"][1], Agg) and e_["args"][1].ty == "closure" and
+                        mirsym_fn(ex, e_["args"][1]) in kids]
+                if maps:
+                    n_rec += 1
+                    caps = [ex.to_val(s, ex.read_ref(s, c_) if isinstance(c_, Ref) else c_) for c_ in maps[0]["args"][1].fields]
+                    grown = [c_ for c_ in caps if bt.get_id() in _subterm_ids(c_) and ct.get_id() in _subterm_ids(c_) and not z3.eq(c_, bt)]
+                    ok = len(guards) == 1 and z3.is_bool(guards[0]["ret"]) and bool(grown)
+                    claims.append(z3.Implies(conj(p.cond), z3.And(z3.BoolVal(bool(ok)), z3.Not(guards[0]["ret"]) if ok else z3.BoolVal(False))))
+                if guards and z3.is_bool(guards[0]["ret"]):
+                    taken = e2.solve(ex, list(p.cond) + [guards[0]["ret"]])[0] == z3.sat
+                    if taken:
+                        n_guard += 1
+                        claims.append(z3.Implies(z3.And(conj(p.cond), guards[0]["ret"]), z3.BoolVal(result_kind(p) == "Err" and not maps)))
+            # the recursive closure hands the grown list on
+            for g in kids:
+                if not any("class" in str(b.term) for b in g.blocks.values() if b.term):
+                    continue
+                stc = State()
+                grown_v = Opq(z3.Const("below+class", Val), "Vec<String>")
+                caps = [Ref(ex.new_cell(stc, Opq(z3.Const(f"cap{i}", Val), "?"))) for i in range(4)]
+                envty = g.args[0][1].strip()
+                # captures in order of first use are not known here: every captured value is tried as the list
+                handed = False
+                for i in range(3):
+                    stc = State()
+                    caps = [Ref(ex.new_cell(stc, Opq(z3.Const(f"cap{j}", Val), "?"))) for j in range(4)]
+                    caps[i] = Ref(ex.new_cell(stc, grown_v))
+                    env = Agg("closure", envty.lstrip("&").replace("mut ", "").strip(), caps)
+                    try:
+                        endc = e2.run_kernel(run, ex, g, [Ref(ex.new_cell(stc, env)) if envty.startswith("&") else env, Ref(ex.new_cell(stc, Opq(z3.Const("parent", Val), "TrueName")))], stc)
+                    except Unsupported:
+                        continue
+                    gv = ex.to_val(stc, grown_v)
+                    for p in endc:
+                        rec = [e_ for e_ in p.events if "class" in e_["name"].split("::")[-1]]
+                        if rec and any(z3.eq(a, gv) for a in rec[-1]["argvals"]):
+                            handed = True
+                claims.append(z3.BoolVal(handed))
+            if not n_rec or not n_guard:
+                claims.append(z3.BoolVal(False))
+
+        def replay(model):
+            bad = []
+            for nm, src in (("self-inheritance", "class A: A\n"), ("two-cycle", "class A: B\nclass B: A\n"), ("self-inheriting-type", "type A: A\n"),
+                            ("self-inheritance-used", "class A: A\ndef a := A()\n"), ("three-cycle", "class A: B\nclass B: C\nclass C: A\ndef a := A()\n")):
+                st_, out = rp.transpile(src)
+                if st_ not in ("OK", "ERR"):
+                    bad.append((nm, f"{src!r}: {st_} {out[:80]!r}"))
+            if bad:
+                return {"reproduced": True, "role": "inheritance-cycle:" + "+".join(b[0] for b in bad), "detail": bad[0][1]}
+            return {"reproduced": False, "detail": "5 programs with cyclic inheritance end with output or diagnostics"}
+        e2.prove(run, ob, ex, [], conj(claims), {}, replay)
+        if ob.status == "discharged":
+            r_ = replay({})
+            run.validated += 5
+            if r_["reproduced"]:
+                ob.status = "pending"
+                ob.inconclusive("cyclic inheritance still crashes although the look-up is guarded: " + r_["detail"])
+        run.samples.append({"obligation": ob.id, "function": name, "has_list_parameter": below is not None, "recursing_paths": n_rec, "guard_paths": n_guard})
+    except Unsupported as e:
+        ob.inconclusive(str(e))
+
+
+def mirsym_fn(ex, v):
+    import mirsym
+    return mirsym.fn_of_value(ex, v)
+
+
+def ob_definition_panics(run, mir, rp):
+    ob = run.ob("definition-no-explicit-panic", "E2", "id_from_var (every form of definition): no path ends in an explicit panic! / unreachable! / expect - a "
+                "definition the checker cannot handle (an empty tuple of variables) is a diagnostic", ["id_from_var"])
+    try:
+        fn = e2.find1(mir, file="src/check/constrain/generate/definition.rs", name="id_from_var")
+        import ckern
+        pan, n = [], 0
+        ex = None
+        for with_ty in (True, False):
+            for with_expr in (True, False):
+                ex = Exec(mir, max_paths=20000)
+                st = State()
+                var, _ = ckern.mk_ast("var", e2.opq("var.node", "Node"))
+                ty = Agg("Option", "Some", [e2.opq("ty.v", "Name")]) if with_ty else Agg("Option", "None", [])
+                e_ast, _ = ckern.mk_ast("init", e2.opq("init.node", "Node"))
+                expr = Agg("Option", "Some", [Ref(ex.new_cell(st, e_ast))]) if with_expr else Agg("Option", "None", [])
+                ctx, constr = ckern.refs(ex, st, "ctx", "constr")
+                env, _ev = ckern.sym_env(ex, st)
+                ends = e2.run_kernel(run, ex, fn, [Ref(ex.new_cell(st, var)), Ref(ex.new_cell(st, ty)), Ref(ex.new_cell(st, expr)), z3.Bool("mutable"), ctx, constr, env], st)
+                n += len(ends)
+                for p in ends:
+                    if (p.kind == "panic" and "attempt to" not in (p.detail or "")) or p.kind == "diverge":
+                        pan.append((conj(p.cond), f"{p.kind}: {p.detail}", with_ty, with_expr))
+
+        def replay(model):
+            bad = []
+            for src in ("def () := ()\n", "def () := (1, 2)\n", "def ()\n", "def (): Int := 1\n"):
+                st_, out = rp.transpile(src)
+                if st_ not in ("OK", "ERR"):
+                    bad.append(f"{src!r}: {st_} {out[:80]!r}")
+            if bad:
+                return {"reproduced": True, "role": "definition-panics:empty-tuple-of-variables", "detail": "; ".join(bad[:2])}
+            return {"reproduced": False, "detail": "4 definitions of an empty tuple end with diagnostics"}
+        if not pan:
+            ob.reach = "sat"
+            ob.discharged(f"no explicit panic among {n} path ends")
+        else:
+            e2.prove(run, ob, ex, [], z3.Not(disj([c for c, _d, _t, _e in pan])), {}, replay)
+            ob.detail += f"; panic sites: {sorted({d[:80] for _c, d, _t, _e in pan})[:3]}"
+        run.samples.append({"obligation": ob.id, "path_ends": n, "explicit_panic_paths": len(pan)})
+    except Unsupported as e:
+        ob.inconclusive(str(e))
+
+
 def run(run):
     mir = e2.load_mir(run)
     rp = common.Replay()
@@ -322,6 +496,8 @@ def run(run):
     ob_unify_arith(run, mir, rp)
     ob_reinsert_once(run, mir, rp)
     ob_parser_loops(run, mir, rp)
+    ob_class_recursion(run, mir, rp)
+    ob_definition_panics(run, mir, rp)
     if os.environ.get("VERIF_NO_KANI") != "1":
         import e1
         names = list(e1.QUICK_B) + ["step_other_char"]
